@@ -75,6 +75,10 @@ def pad_attr_tokens(f, sp, used_zchar_as_pad):
 
 def doc_tokens(f, sp):
     d = getattr(f, 'doc', None)
+    if sp.rng is not None and sp.pick('doc_toggle', False) and sp.force.get('doc_toggle', True):
+        if d:
+            return [] if sp.rng.random() < 0.5 else ['`%s changed`' % d]
+        return ['`doc %d`' % sp.rng.randint(0, 999)]
     if d:
         return ['`%s`' % d]
     return []
@@ -87,13 +91,20 @@ def key_tok(k):
 def field_tokens(proto, f, sp, allow_attr=True):
     rep = ['repeat'] if f.repeat else []
     k = f.kind
+    if k == 'meta' and sp.rng is not None and proto is not None and sp.pick('inline_meta'):
+        g = proto.eff(f)
+        g.doc = f.doc
+        return field_tokens(proto, g, sp, allow_attr)
     if k in ('num', 'char', 'fix', 'dyn'):
-        tt = type_tokens(f, sp)
-        zap = (k == 'fix' and f.zchar and tt[0] == 'char[')
-        if zap and not allow_attr:
+        if k == 'fix' and f.zchar and not allow_attr:
             tt = ['zchar[', str(f.n), ']']
-            zap = False
+        else:
+            tt = type_tokens(f, sp)
+        zap = (k == 'fix' and f.zchar and tt[0] == 'char[')
         pre = pad_attr_tokens(f, sp, zap) if allow_attr else []
+        if (k == 'fix' and not f.zchar and f.pad is None and allow_attr and sp.rng is not None and proto is not None
+                and proto.cfg()['padchar'] == 'sp' and not proto.cfg()['padleft'] and sp.pick('explicit_default_pad')):
+            pre = ['@rightPad', '('] + ([PADCHARS['sp']] if sp.pick('explicit_default_pad_char') else []) + [')', NL]
         return pre + rep + tt + [f.name] + doc_tokens(f, sp) + [',']
     if k == 'meta':
         pre = pad_attr_tokens(f, sp, False) if allow_attr else []
@@ -180,9 +191,12 @@ def tokens(proto, sp=None):
                 t += [e.ref, e.name]
             else:
                 b = e.base
-                t += type_tokens(b, sp) + [e.name]
+                if b.kind == 'fix' and b.zchar:
+                    t += ['zchar[', str(b.n), ']', e.name]     # no attribute position inside MetaData
+                else:
+                    t += type_tokens(b, sp) + [e.name]
             if e.doc:
-                t.append('`%s`' % e.doc)
+                t.append('`%s`' % (e.doc if not (sp.rng is not None and sp.pick('doc_toggle', False)) else e.doc + ' v2'))
             t.append(',')
         t += ['}']
     for p in proto.packets:
@@ -330,3 +344,18 @@ def render(proto, sp=None, style='pretty', rng=None):
 def essential(toks):
     """token texts without layout hints/comments and without grammar-optional separators."""
     return [t for t in toks if t is not NL and not isinstance(t, Comment)]
+
+
+def insert_comments(toks, rng, p=0.15, counter=None):
+    """insert uniquely numbered comments at random token boundaries (the lexer puts them on the hidden channel anywhere)."""
+    out = []
+    n = [0] if counter is None else counter
+    for i, t in enumerate(toks):
+        if t is not NL and rng.random() < p:
+            n[0] += 1
+            out.append(Comment('// c%d %s' % (n[0], rng.choice(['note', 'x y z', '{ } , ;', 'packet A {', '`doc`'])), own_line=True))
+        out.append(t)
+        if t is not NL and not isinstance(t, Comment) and rng.random() < p / 2:
+            n[0] += 1
+            out.append(Comment('// t%d trailing' % n[0], own_line=False))
+    return out
